@@ -45,7 +45,7 @@ def durations(rng, unit):
     return rng.choice([noexp, defexp, defexp, -5, -3, 0, 1, 1, 2, 2, 3, 5, 8, 20, 100, rng.randint(1, 1000)])
 
 
-def cache_program(rng, kind, keytype, valtype, unit=1, length=150, nkeys=5, note="", cfg=None, boundary_bias=0.5):
+def cache_program(rng, kind, keytype, valtype, unit=1, length=150, nkeys=5, note="", cfg=None, boundary_bias=0.5, slowfn=0.0):
     """Random sequential cache program. A tiny shadow of the expiry arithmetic is kept only to aim clock
     advances at expiration instants (e-1, e, e+1); it is not an oracle."""
     noexp, defexp = NOEXP_NS // unit, DEFEXP_NS // unit
@@ -85,6 +85,10 @@ def cache_program(rng, kind, keytype, valtype, unit=1, length=150, nkeys=5, note
             now += dt
         elif op in ("Set", "GetOrSet", "GetAndSet", "GetOrCompute"):
             o.update(k=k, v=vg.next() if rng.random() > 0.03 else "nil", d=durations(rng, unit))
+            if op == "GetOrCompute" and slowfn and rng.random() < slowfn:
+                o["ft"] = rng.choice([1, 2, 5])   # slow user function: the clock advances while it runs (if it runs)
+                if not exp.get(k) or exp[k] < now:
+                    now += o["ft"]
             arm(k, o["d"])
         elif op == "SetDefault":
             o.update(k=k, v=vg.next())
@@ -98,6 +102,9 @@ def cache_program(rng, kind, keytype, valtype, unit=1, length=150, nkeys=5, note
                 arm(k, o["d"])
         elif op == "Compute":
             o.update(k=k, v=vg.next(), d=durations(rng, unit), fn=rng.choice(COMPUTE_FNS))
+            if slowfn and rng.random() < slowfn:
+                o["ft"] = rng.choice([1, 2, 5])
+                now += o["ft"]
             arm(k, o["d"])
         elif op in ("Get", "GetWithExpiration", "GetWithTTL", "GetAndDelete", "Delete"):
             o.update(k=k)
